@@ -627,3 +627,160 @@ Proof.
   rewrite A, H0, H1. simpl. eapply clients_agree_spec; eauto.
   intros k c K. exact K.
 Qed.
+
+(** * fs_local.go Create as a thread program refines the one-step [sem (FPut ..)] *)
+Local Open Scope list_scope.
+
+Lemma upd_upd p : forall f g t, upd p f (upd p g t) = upd p (fun n => f (g n)) t.
+Proof.
+  induction p as [|x p IH]; intros f g t; simpl; auto.
+  destruct t as [s|ch]; simpl; auto. rewrite modify_modify. f_equal.
+  apply modify_ext. intro v. apply IH.
+Qed.
+
+Lemma modify_ext_at x f g ch :
+  (forall v, assoc x ch = Some v -> f v = g v) -> modify x f ch = modify x g ch.
+Proof.
+  induction ch as [|[k v] r IH]; simpl; intro H; auto.
+  destruct (String.eqb k x) eqn:E.
+  - rewrite H; auto.
+  - rewrite IH; auto.
+Qed.
+
+Lemma upd_ext_at p : forall f g t,
+  (forall n, sub p t = Some n -> f n = g n) -> upd p f t = upd p g t.
+Proof.
+  induction p as [|x p IH]; intros f g t H; simpl in *.
+  - apply H. reflexivity.
+  - destruct t as [s|ch]; auto. f_equal. apply modify_ext_at. intros v A.
+    apply IH. intros n S. apply H. rewrite A. exact S.
+Qed.
+
+Lemma upd_id_at p : forall f t, (forall n, sub p t = Some n -> f n = n) -> upd p f t = t.
+Proof.
+  induction p as [|x p IH]; intros f t H; simpl in *.
+  - apply H. reflexivity.
+  - destruct t as [s|ch]; auto. f_equal.
+    assert (G : forall ch', (forall v, assoc x ch' = Some v -> upd p f v = v) -> modify x (upd p f) ch' = ch').
+    { induction ch' as [|[k v] r IHr]; simpl; intro G; auto.
+      destruct (String.eqb k x) eqn:E; [rewrite G; auto | rewrite IHr; auto]. }
+    apply G. intros v A. apply IH. intros n S. apply H. rewrite A. exact S.
+Qed.
+
+Lemma split_last_snoc d l : split_last (d ++ [l]) = Some (d, l).
+Proof.
+  induction d as [|x d IH]; simpl; auto. rewrite IH.
+  destruct (d ++ [l])%list eqn:E; auto. destruct d; discriminate.
+Qed.
+
+Lemma sub_snoc d : forall l m,
+  sub (d ++ [l]) m = match sub d m with Some (Dir ch) => assoc l ch | _ => None end.
+Proof.
+  induction d as [|x d IH]; intros l m; simpl.
+  - destruct m as [s|ch]; auto. destruct (assoc l ch); auto.
+  - destruct m as [s|ch]; auto. destruct (assoc x ch) as [n|]; auto.
+Qed.
+
+Lemma assoc_app_fresh tmp v ch : assoc tmp ch = None -> assoc tmp (ch ++ [(tmp, v)]) = Some v.
+Proof.
+  induction ch as [|[k w] r IH]; simpl; intro H.
+  - rewrite String.eqb_refl. reflexivity.
+  - destruct (String.eqb k tmp); [discriminate | auto].
+Qed.
+
+Lemma modify_app_fresh tmp f v ch :
+  assoc tmp ch = None -> modify tmp f (ch ++ [(tmp, v)]) = (ch ++ [(tmp, f v)])%list.
+Proof.
+  induction ch as [|[k w] r IH]; simpl; intro H.
+  - rewrite String.eqb_refl. reflexivity.
+  - destruct (String.eqb k tmp); [discriminate | rewrite IH; auto].
+Qed.
+
+Lemma remove_app_fresh tmp v ch : assoc tmp ch = None -> remove_child tmp (ch ++ [(tmp, v)]) = ch.
+Proof.
+  induction ch as [|[k w] r IH]; simpl; intro H.
+  - rewrite String.eqb_refl. reflexivity.
+  - destruct (String.eqb k tmp); [discriminate | rewrite IH; auto].
+Qed.
+
+(** the three temp-file steps together are the one [set_child] of [place] *)
+Lemma tmp_steps_compose d tmp l s m ch :
+  sub d m = Some (Dir ch) -> assoc tmp ch = None ->
+  fst (tmp_rename d tmp l (fst (tmp_write d tmp s (fst (tmp_create d tmp m))))) =
+  upd d (fun n => match n with Dir ch => Dir (set_child l (File s) ch) | File _ => n end) m.
+Proof.
+  intros S F. unfold tmp_rename, tmp_write, tmp_create. rewrite S. cbn [fst].
+  rewrite !upd_upd. apply upd_ext_at. intros n Sn. rewrite S in Sn. inversion Sn; subst n.
+  rewrite (modify_app_fresh tmp (fun _ => File s) (File "") ch F).
+  rewrite (assoc_app_fresh tmp (File s) ch F), (remove_app_fresh tmp (File s) ch F).
+  reflexivity.
+Qed.
+
+Lemma lstep_call {R} c (k : outc -> prog R) m :
+  lstep (PCall c k, Some m) = (k (snd (c m)), Some (fst (c m))).
+Proof. reflexivity. Qed.
+
+Lemma lstep_ret {R} (r : R) v : lstep (PRet r, v) = (PRet r, v).
+Proof. reflexivity. Qed.
+
+(** Run alone (four primitive steps; fewer are needed when it stops early, further
+    steps of a finished program change nothing), the program of Create ends with the
+    answer and the tree of the one-step PUT. *)
+Theorem put_prog_refines d l tmp s m :
+  tmp_fresh d tmp m ->
+  Nat.iter 4 lstep (put_prog d l tmp s, Some m) =
+  (PRet (snd (sem (FPut (d ++ [l]) s) m)), Some (fst (sem (FPut (d ++ [l]) s) m))).
+Proof.
+  unfold tmp_fresh. intro F.
+  change (Nat.iter 4 lstep (put_prog d l tmp s, Some m))
+    with (lstep (lstep (lstep (lstep (put_prog d l tmp s, Some m))))).
+  unfold put_prog. rewrite lstep_call.
+  cbn [sem fst snd]. unfold place. rewrite split_last_snoc, sub_snoc.
+  destruct (sub d m) as [[c|ch]|] eqn:S.
+  - (* the parent is a file *)
+    cbn [fst snd]. rewrite lstep_call.
+    assert (C : tmp_create d tmp m = (m, OStatus 409)) by (unfold tmp_create; rewrite S; reflexivity).
+    rewrite C. cbn [fst snd outc_eqb]. change (409 =? 201)%N with false. cbn iota.
+    rewrite !lstep_ret. reflexivity.
+  - destruct (assoc l ch) as [[c|ch']|] eqn:A; cbn [fst snd].
+    + (* an existing file: 204 *)
+      rewrite lstep_call.
+      assert (C : snd (tmp_create d tmp m) = OStatus 201) by (unfold tmp_create; rewrite S; reflexivity).
+      rewrite C. cbn [outc_eqb]. rewrite N.eqb_refl. rewrite lstep_call, lstep_call.
+      cbn [snd]. rewrite (tmp_steps_compose d tmp l s m ch S F). reflexivity.
+    + (* a collection: 405 *)
+      rewrite !lstep_ret. reflexivity.
+    + (* nothing there: 201 *)
+      rewrite lstep_call.
+      assert (C : snd (tmp_create d tmp m) = OStatus 201) by (unfold tmp_create; rewrite S; reflexivity).
+      rewrite C. cbn [outc_eqb]. rewrite N.eqb_refl. rewrite lstep_call, lstep_call.
+      cbn [snd]. rewrite (tmp_steps_compose d tmp l s m ch S F). reflexivity.
+  - (* no parent *)
+    cbn [fst snd]. rewrite lstep_call.
+    assert (C : tmp_create d tmp m = (m, OStatus 409)) by (unfold tmp_create; rewrite S; reflexivity).
+    rewrite C. cbn [fst snd outc_eqb]. change (409 =? 201)%N with false. cbn iota.
+    rewrite !lstep_ret. reflexivity.
+Qed.
+
+Lemma iter_plus {A} (f : A -> A) a : forall b x, Nat.iter (a + b) f x = Nat.iter a f (Nat.iter b f x).
+Proof. induction a; intros; simpl; auto. rewrite IHa. reflexivity. Qed.
+
+Lemma iter_lstep_ret {R} (r : R) v k : Nat.iter k lstep (PRet r, v) = (PRet r, v).
+Proof. induction k; simpl; auto. rewrite IHk. reflexivity. Qed.
+
+(** A PUT running as a four-step program among other threads on disjoint roots,
+    under any schedule that lets it finish: the answer and the subtree of the one-step
+    PUT on the subtree it started from — whatever the other threads did in between. *)
+Theorem put_concurrent sched (s : list (thread outc) * node) i p d l tmp c m :
+  thread_roots_disjoint (fst s) ->
+  nth_error (fst s) i = Some (p, put_prog d l tmp c) ->
+  sub p (snd s) = Some m -> tmp_fresh d tmp m ->
+  4 <= count_occ Nat.eq_dec sched i ->
+  view (grun s sched) i =
+  Some (PRet (snd (sem (FPut (d ++ [l]) c) m)), Some (fst (sem (FPut (d ++ [l]) c) m))).
+Proof.
+  intros RD N S F LE. rewrite threads_independent by exact RD.
+  unfold view at 1. rewrite N, S. cbn [option_map]. f_equal.
+  replace (count_occ Nat.eq_dec sched i) with ((count_occ Nat.eq_dec sched i - 4) + 4) by lia.
+  rewrite iter_plus, (put_prog_refines d l tmp c m F). apply iter_lstep_ret.
+Qed.
